@@ -22,6 +22,8 @@ var AssumedLib = []string{
 	"net.IP.To4: returns nil or a 4-byte slice (the receiver itself when it has length 4); To16: nil or a 16-byte slice (the receiver itself when it has length 16, non-nil when length 4)",
 	"sync.(RW)Mutex: Lock/RLock acquire (monitor model: protected state is havocked and the lock invariant assumed), Unlock/RUnlock release (lock invariant asserted when declared)",
 	"time.Now: symbolic monotone clock; Time.Add/Sub/After/Before/Since/Unix: integer arithmetic on nanoseconds",
+	"cilium/ebpf (*Map).Put/Update/Delete: only read their key/value arguments, no effect on Go state, unconstrained error",
+	"net.HardwareAddr.String: an (uninterpreted) function of the address bytes; crypto/rand.Read: writes only into its argument's backing array",
 	"zap, fmt.Sprint*, strings, strconv, errors, math, unicode, context, sync/atomic, prometheus: no panic, no effect on modelled state, unconstrained results",
 }
 
@@ -237,6 +239,34 @@ func init() {
 		return []smt.Term{r}
 	}
 
+	// cilium/ebpf Map.Put/Update/Delete: kernel map writes; key/value are only read, no
+	// effect on the modelled Go state; the error result is unconstrained
+	for _, name := range []string{"Put", "Update", "Delete"} {
+		libModels["(*github.com/cilium/ebpf.Map)."+name] = func(fv *funcVerifier, st *State, call *ast.CallExpr, fn *types.Func) []smt.Term {
+			fv.evalCallee(st, call.Fun)
+			fv.evalArgs(st, call, fn.Type().(*types.Signature))
+			return fv.freshResults(st, call, "bpfmap")
+		}
+	}
+
+	// crypto/rand.Read(b): writes only into the backing array of b; results unconstrained
+	libModels["crypto/rand.Read"] = func(fv *funcVerifier, st *State, call *ast.CallExpr, fn *types.Func) []smt.Term {
+		b := fv.evalExpr(st, call.Args[0])
+		key := fv.memKey(types.Typ[types.Uint8])
+		h := fv.heapGet(st, key)
+		fv.mut++
+		fv.heapSet(st, key, smt.Store(h, slArr(b), fv.c.Fresh("rnd", smt.ElemSort(h.Sort))))
+		return fv.freshResults(st, call, "randread")
+	}
+
+	// net.HardwareAddr.String: a deterministic function of the address bytes (uninterpreted:
+	// equal backing contents, offset and length give equal strings; nothing else is assumed)
+	libModels["(net.HardwareAddr).String"] = func(fv *funcVerifier, st *State, call *ast.CallExpr, fn *types.Func) []smt.Term {
+		sel := ast.Unparen(call.Fun).(*ast.SelectorExpr)
+		hw := fv.evalExpr(st, sel.X)
+		return []smt.Term{fv.hwaddrStr(st, hw)}
+	}
+
 	// locks
 	lock := func(acquire bool) libHandler {
 		return func(fv *funcVerifier, st *State, call *ast.CallExpr, fn *types.Func) []smt.Term {
@@ -302,6 +332,27 @@ func init() {
 }
 
 // lockOp models acquiring/releasing the mutex designated by expression mu.
+// hwaddrStr is the model of net.HardwareAddr.String() for the slice value hw in state st.
+func (fv *funcVerifier) hwaddrStr(st *State, hw smt.Term) smt.Term {
+	key := fv.memKey(types.Typ[types.Uint8])
+	fv.instFrames(key, slArr(hw))
+	if !fv.c.Has("hwaddr_str") {
+		fv.c.DeclareFun("hwaddr_str", []string{smt.Arr(smt.Int, smt.Int), smt.Int, smt.Int}, StrSort)
+		// the string depends only on the bytes of the window (extensionality, stated contrapositively so
+		// that the index is a Skolem function): different strings => some byte of the windows differs
+		a, b := smt.Term{S: "hx_a", Sort: smt.Arr(smt.Int, smt.Int)}, smt.Term{S: "hx_b", Sort: smt.Arr(smt.Int, smt.Int)}
+		oa, ob, n := smt.Term{S: "hx_oa", Sort: smt.Int}, smt.Term{S: "hx_ob", Sort: smt.Int}, smt.Term{S: "hx_n", Sort: smt.Int}
+		i := smt.Term{S: "hx_i", Sort: smt.Int}
+		sa := smt.App(StrSort, "hwaddr_str", a, oa, n)
+		sb := smt.App(StrSort, "hwaddr_str", b, ob, n)
+		fv.c.Axiom("hwaddr_str_ext", smt.Term{S: "(forall ((hx_a (Array Int Int)) (hx_oa Int) (hx_b (Array Int Int)) (hx_ob Int) (hx_n Int)) (! " +
+			smt.Implies(smt.Ne(sa, sb), smt.Exists([]smt.Term{i}, smt.And(smt.Ge(i, smt.IntLit(0)), smt.Lt(i, n),
+				smt.Ne(smt.Select(a, smt.Add(oa, i)), smt.Select(b, smt.Add(ob, i)))))).S +
+			" :pattern (" + sa.S + " " + sb.S + ")))", Sort: smt.Bool}, "hwaddr_str")
+	}
+	return smt.App(StrSort, "hwaddr_str", smt.Select(fv.heapGet(st, key), slArr(hw)), slOff(hw), slLen(hw))
+}
+
 func (fv *funcVerifier) lockOp(st *State, mu ast.Expr, acquire bool, call *ast.CallExpr) {
 	// evaluate the owner for nil checks
 	if sel, ok := ast.Unparen(mu).(*ast.SelectorExpr); ok {
